@@ -97,8 +97,17 @@ def run(ctx):
     # ---- simulate_ts_dist, sim_npc partial p-values, westfall_young raw p-values
     from permute import irr, npc
     for _ in range(per):
-        R = ctx.rng.randint(2, 4); Ns = ctx.rng.randint(2, 5); reps = ctx.rng.randint(1, 12); plus1 = ctx.rng.random() < 0.5
-        m = np.array([[ctx.rng.randint(0, 1) for _ in range(Ns)] for _ in range(R)])
+        R = ctx.rng.randint(2, 7); Ns = ctx.rng.randint(2, 9); reps = ctx.rng.randint(1, 25); plus1 = ctx.rng.random() < 0.5
+        shape = ctx.rng.choice(["random", "constant-rows", "mostly-unanimous"])
+        if shape == "constant-rows":          # every permutation ties with the observed value
+            m = np.array([[ctx.rng.randint(0, 1)] * Ns for _ in range(R)])
+        elif shape == "mostly-unanimous":
+            m = np.array([[1] * Ns for _ in range(R)]); m[ctx.rng.randrange(R), ctx.rng.randrange(Ns)] = 0
+            if ctx.rng.random() < 0.5:
+                m[ctx.rng.randrange(R), ctx.rng.randrange(Ns)] = 0
+        else:
+            m = np.array([[ctx.rng.randint(0, 1) for _ in range(Ns)] for _ in range(R)])
+        ctx.count("ts_dist-" + shape)
         seed = ctx.rng.randint(0, 10**9)
         r = guarded(irr.simulate_ts_dist, m, None, reps, True, seed, plus1)
         r2 = guarded(irr.simulate_ts_dist, m, None, reps, False, seed, plus1)
@@ -136,7 +145,11 @@ def run(ctx):
                     det.update({"issue": f"partial/raw p-value of test {c} is not (count+1)/(reps+1)", "returned": [float(v) for v in raw], "expected": str(want)})
                     ctx.violation("oracle", det, site=which); break
                 ops.append(f"pupper|1|{reps}|{rat(ts[c])}|{rats([r_[c] for r_ in tv])}"); meta.append((det, float(raw[c]), which))
-    outs = run_model(ops)
+    # the observed statistic is the statistic of the data exactly as given: recorded-draw replay against the model
+    o2, m2 = rt.run_recorded(ctx, list(rt.FUNCS), ctx.n(30, 500))
+    outs = run_model(ops + o2)
+    rt.compare_recorded(ctx, o2, m2, outs[len(ops):], "observed-statistic-and-dist-model-vs-impl")
+    outs = outs[:len(ops)]
     agree = True
     for o, (det, pimpl, site) in zip(outs, meta):
         mp = frac(o.split("|")[0])
